@@ -97,13 +97,14 @@ def run(chk):
     chk.rule("R4", "no local declared without initialiser reaches a result unassigned; every constructor with arguments leaves every stored slot assigned")
     chk.rule("R5", "no cast to an enumeration type; no non-constant signed integer arithmetic")
     chk.rule("R6", "no element access (operator[], front, back) on a std::vector of unknown size; every std::array index is a constant inside the array")
+    chk.rule("R8", "no library function writes a variable with static storage duration and no function-local static is non-const (no hidden mutable state)")
     chk.rule("R7", "no reference variable or returned reference is bound to the result of a call that returns a reference when an argument of that call is a temporary (std::clamp/min/max idiom)")
     chk.rule("R0", "positive controls: the scanners fire on a control TU fragment containing each forbidden construct")
     chk.assumptions += ["static analysis decides the clauses the statement names (lookups hit, exception escape, parser totality, definite initialisation inside "
                         "the library, integer/enum discipline); general memory safety beyond these clauses is NOT decided",
                         "std::tolower/toupper on negative char values (non-ASCII input to Lowercase/Uppercase/SnakeCase) is formally UB and is recorded as an observation, not armed; these helpers are not on the parsing paths",
                         "default constructors leave values uninitialised by documented design"]
-    controls = {"cast": 0, "signed": 0, "unchecked": 0, "uninit": 0, "throw": 0, "vector_element": 0, "array_element": 0, "dangling": 0}
+    controls = {"cast": 0, "signed": 0, "unchecked": 0, "uninit": 0, "throw": 0, "vector_element": 0, "array_element": 0, "dangling": 0, "state": 0}
     n_calls = 0
     n_array_idx = [0]
     for T in NUMERIC:
@@ -235,6 +236,28 @@ def run(chk):
                         else:
                             chk.violated("R5", "%s: signed %s" % (f["name"], n.get("op")), "non-constant signed integer arithmetic of type %s can overflow" % t, loc)
             cg.walk(f.get("body"), visit)
+            # R8: no hidden mutable state (results must be functions of the inputs, for every history of calls)
+            def visit_state(n, f=f, is_control=is_control, loc=loc):
+                k = n.get("k")
+                tgt = None
+                if k == "cassign" or (k == "bin" and n.get("op") == "="):
+                    tgt = n.get("l")
+                elif k == "un" and n.get("op") in ("++", "--"):
+                    tgt = n.get("e")
+                if isinstance(tgt, dict) and (tgt.get("k") == "gvar" or (tgt.get("k") == "local" and tgt.get("static"))):
+                    if is_control:
+                        controls["state"] += 1
+                    else:
+                        what = F.vars[tgt["v"]]["name"] if tgt.get("k") == "gvar" and tgt.get("v") in F.vars else tgt.get("n", "?")
+                        chk.violated("R8", "%s: writes %s" % (f["name"], what), "a library function modifies a variable with static storage duration: results depend on the history of calls", loc)
+                if k == "decl":
+                    for d in n.get("d", []):
+                        if d.get("static") and not (F.T(d["t"]) or "").startswith("const "):
+                            if is_control:
+                                controls["state"] += 1
+                            else:
+                                chk.violated("R8", "%s: static %s" % (f["name"], d["n"]), "non-const function-local static: hidden mutable state shared by all calls", loc)
+            cg.walk(f.get("body"), visit_state)
             # R7: a reference that outlives the temporary it (may) refer to
             def unwrap(n):
                 while isinstance(n, dict) and n.get("k") == "ilist" and len(n.get("e", [])) == 1:
@@ -348,6 +371,8 @@ def run(chk):
                 chk.violated("R3", inst, "a strto* call is not enclosed by a try with a non-rethrowing catch(...): arbitrary byte strings make it throw", short(f["loc"]))
     if not any(o["rule"] == "R5" for o in chk.obs):
         chk.holds("R5", "all library bodies", "no cast to an enumeration type and no non-constant signed integer arithmetic in any instantiated body (controls matched: see R0)", "")
+    if not any(o["rule"] == "R8" for o in chk.obs):
+        chk.holds("R8", "all library bodies", "no write to static storage, no non-const function-local static", "")
     if not any(o["rule"] == "R7" for o in chk.obs):
         chk.holds("R7", "all library bodies", "no reference outlives a temporary it may refer to", "")
     for k, v in controls.items():
